@@ -133,11 +133,43 @@ func checkOne(w Witness) (law, msg string) {
 			return "overlap", "table bodies overlap"
 		}
 	}
+	// the collection entry point accepts the written file too (a file without tables is
+	// 12 bytes long: a reader that wants more than the sfnt header to identify it fails here)
+	{
+		var lds []*ot.Loader
+		var err error
+		if pv, where := vrun.Catch(func() { lds, err = ot.NewLoaders(bytes.NewReader(out)) }); pv != nil {
+			return "panic", fmt.Sprintf("NewLoaders panicked on written file: %v at %s", pv, where)
+		}
+		if err != nil || len(lds) != 1 {
+			return "reload", fmt.Sprintf("NewLoaders on the written file (%d tables, %d bytes): %d loaders, err=%v", n, len(out), len(lds), err)
+		}
+		if got := len(lds[0].Tables()); got != n {
+			return "reload-tags", fmt.Sprintf("NewLoaders: loader reports %d tables, want %d", got, n)
+		}
+	}
 	// read back through the library's loader
 	if n >= 1 {
 		var ld *ot.Loader
 		var err error
-		if pv, where := vrun.Catch(func() { ld, err = ot.NewLoader(bytes.NewReader(out)) }); pv != nil {
+		rd := bytes.NewReader(out)
+		defer func() {
+			// loading does not depend on where earlier reads left the resource: a second
+			// NewLoader on the same reader, not rewound, sees the same file
+			if law != "" {
+				return
+			}
+			var ld2 *ot.Loader
+			var err2 error
+			if pv, where := vrun.Catch(func() { ld2, err2 = ot.NewLoader(rd) }); pv != nil {
+				law, msg = "panic", fmt.Sprintf("second NewLoader on the same reader panicked: %v at %s", pv, where)
+			} else if err2 != nil {
+				law, msg = "reload", fmt.Sprintf("second NewLoader on the same reader (not rewound after the reads of the first): %v", err2)
+			} else if got := len(ld2.Tables()); got != n {
+				law, msg = "reload-tags", fmt.Sprintf("second NewLoader on the same reader reports %d tables, want %d", got, n)
+			}
+		}()
+		if pv, where := vrun.Catch(func() { ld, err = ot.NewLoader(rd) }); pv != nil {
 			return "panic", fmt.Sprintf("NewLoader panicked on written file: %v at %s", pv, where)
 		}
 		if err != nil {
